@@ -123,9 +123,11 @@ def _tlc_cmd(workers, metadir, cfg, module, extra=()):
     return ["tlc", "-workers", str(workers), "-metadir", metadir, "-config", cfg] + list(extra) + [module]
 
 
-def tlc_env(heap="3g", **kw):
+def tlc_env(heap="3g", tmp=None, **kw):
     e = dict(os.environ)
     e["JAVA_TOOL_OPTIONS"] = "-Xmx%s -Xss64m" % heap
+    if tmp:     # TLC's own temporary directories go into the run's scratch directory (removed with it), not into /tmp
+        e["JAVA_TOOL_OPTIONS"] += " -Djava.io.tmpdir=" + tmp
     e.update(kw)
     return e
 
@@ -175,7 +177,7 @@ def run_design(ctx, module, cfgname, constants, invariants=(), properties=(), vi
     write_cfg(cfg, spec, constants, invariants, properties, view, action_constraint, constraint, deadlock=deadlock)
     cmd = _tlc_cmd(workers or min(NCPU, 8), os.path.join(d, "meta"), cfg, module + ".tla", extra_args)
     t0 = time.time()
-    p = subprocess.Popen(cmd, cwd=d, env=tlc_env(heap), stdout=subprocess.PIPE, stderr=subprocess.STDOUT, text=True)
+    p = subprocess.Popen(cmd, cwd=d, env=tlc_env(heap, tmp=d), stdout=subprocess.PIPE, stderr=subprocess.STDOUT, text=True)
     gen = dist = None
     tail = []
     errlines = []
@@ -220,7 +222,7 @@ def _validate_shard(args):
     d, module, cfg, trace, timeout = args
     cmd = _tlc_cmd(1, os.path.join(d, "meta-" + os.path.basename(trace)), cfg, module + ".tla")
     try:
-        p = subprocess.run(cmd, cwd=d, env=tlc_env("3g", VERIF_TRACE=trace), capture_output=True, text=True,
+        p = subprocess.run(cmd, cwd=d, env=tlc_env("3g", tmp=d, VERIF_TRACE=trace), capture_output=True, text=True,
                            timeout=timeout)
     except subprocess.TimeoutExpired:
         return trace, None, "timeout"
